@@ -518,8 +518,47 @@ def job_extension(tier, rng):
                evaluations=cnt, distinct_nontrivial=cnt, witness=bad, native=dict(confirmed=bad is not None))]
 
 
+def job_orderings(tier, rng):
+    """histories: the criteria are called in ONE process for several orderings of the same local dimensions (same total dimension, same number of parties), interleaved and
+    repeated - a verdict must not depend on which dimension list was seen before (memo tables keyed too coarsely, state left behind by an earlier call)."""
+    import itertools as _it
+    bad = None; cnt = 0
+    families = [sorted(set(_it.permutations(b))) for b in ([(2, 2, 3), (2, 3, 3)] + ([(2, 2, 4), (2, 3, 4)] if tier != 'quick' else []))] + [[(2, 3), (3, 2)], [(2, 4), (4, 2)]]
+    for fam in families:
+        states = {}
+        for dims in fam:
+            r = 0
+            for _ in range(3):
+                v = [(lambda x: x / np.linalg.norm(x))(_rc(rng, d)) for d in dims]
+                k = v[0]
+                for w in v[1:]:
+                    k = np.kron(k, w)
+                r = r + float(rng.uniform(0.2, 1)) * np.outer(k, k.conj())
+            states[dims] = r / np.trace(r).real
+        order = list(fam) + list(fam)[::-1] + [fam[int(i)] for i in rng.permutation(len(fam))]
+        for dims in order:
+            rho = states[dims]
+            try:
+                res = dict(is_ppt=bool(numqi.entangle.is_ppt(rho, dims)), check_reduction_witness=bool(numqi.entangle.check_reduction_witness(rho, dims)),
+                           is_generalized_ppt=bool(numqi.entangle.is_generalized_ppt(rho, dims)))
+                if len(dims) == 2:
+                    neg = float(numqi.entangle.get_negativity(rho, dims)); res['negativity_zero'] = bool(abs(neg) < 1e-7)
+            except Exception as ex:
+                if not from_repo(ex):
+                    raise
+                res = {f'exception:{type(ex).__name__}: {str(ex)[:80]}': False}
+            cnt += len(res)
+            if not all(res.values()) and bad is None:
+                bad = dict(call_sequence=[list(d) for d in order[:order.index(dims) + 1]] if dims in order else None, dims=list(dims), failed=[k for k, v in res.items() if not v],
+                           states={str(list(d)): jsonable(states[d]) for d in fam})
+    return [ob(f'{PROP}.separable_states.verdict_independent_of_call_history', 'pass' if bad is None else 'refuted', tier='B', backend='native',
+               functions=['numqi.entangle.ppt:is_ppt', 'numqi.entangle._misc:check_reduction_witness', 'numqi.entangle.ppt:is_generalized_ppt', 'numqi.entangle._misc:get_negativity'],
+               evaluations=cnt, distinct_nontrivial=cnt, witness=bad, native=dict(confirmed=bad is not None),
+               detail='' if bad is None else 'a separable state is rejected after the criteria were called with another ordering of the same dimensions in the same process')]
+
+
 def jobs(tier):
-    J = []
+    J = [('job_orderings', {})]
     for dims in [(2, 2), (2, 3), (3, 2), (2, 2, 2)] + ([(3, 3), (2, 3, 2)] if tier == 'thorough' else []):
         J.append(('job_core', dict(dims=dims)))
     for dims in [(2, 2), (2, 3), (3, 2), (3, 3), (2, 4), (2, 2, 2), (2, 3, 2)]:
@@ -534,6 +573,15 @@ def replay(rec):
     w = rec.get('witness')
     if not w:
         return False, 'no concrete witness recorded'
+    if 'call_sequence' in w:
+        def dec(x):
+            a = np.array(x, dtype=float); return a[..., 0] + 1j * a[..., 1]
+        st = {k: dec(v) for k, v in w['states'].items()}
+        last = None
+        for d in w['call_sequence']:
+            rho = st[str(list(d))]
+            last = dict(is_ppt=bool(numqi.entangle.is_ppt(rho, tuple(d))), check_reduction_witness=bool(numqi.entangle.check_reduction_witness(rho, tuple(d))), is_generalized_ppt=bool(numqi.entangle.is_generalized_ppt(rho, tuple(d))))
+        return not all(last.values()), last
     if 'rho' in w and 'criterion' in w:
         a = np.array(w['rho'], dtype=float); rho = a[..., 0] + 1j * a[..., 1]
         try:
